@@ -40,63 +40,63 @@ reg(P(
 reg(P(
     "C11", "Names resolve to the innermost visible earlier definition",
     [("B5", ALL), ("V1", {"reference"}), ("B1", ALL), ("C5", {"owner", "qualifier", "nesting"}), ("A7", {"key"})],
-    "lookup walks the current file's slice of the scope stack innermost first and returns the first hit; scopes become members only when complete; dotted names descend only through scopes; an import is pushed under its `as` name exactly for the 4-symbol alternative; the object found is the one stored in the field/array/alias (V1); the generators name the resolved definition and no like-named one: the reverse lookup Scope.get_name_by_member compares by identity (B5), the C name prefix is the one of the file the definition is bound to and an imported definition is qualified with the name the importing file gave the import (C5 parts owner / qualifier).",
+    "lookup walks the current file's slice of the scope stack innermost first and returns the first hit; scopes become members only when complete; dotted names descend only through scopes; an import is pushed under its `as` name exactly for the 4-symbol alternative; the object found is the one stored in the field/array/alias (V1); the generators name the resolved definition and no like-named one: the reverse lookup Scope.get_name_by_member compares by identity (B5), the C name prefix is the one of the file the definition is bound to and an imported definition is qualified with the name the importing file gave the import (C5 parts owner / qualifier). enclosing names are joined on a path that walks all enclosing scopes (C5 part nesting).",
     "no schema is compiled; the behaviour of dict/list primitives is trusted.",
 ))
 
 reg(P(
     "C13", "Constants evaluate arithmetically and reach every target language intact",
     [("B4", ALL), ("V1", {"constant"}), ("C6", ALL), ("A1", {"parse"}), ("A7", {"key"}), ("B5", ALL), ("F11", ALL)],
-    "precedence/associativity table, operand order and integer division of the four binary actions, grouping, literal decoding, escape table, token order (B4); the evaluated value is what Constant.value, Array.cap and option values receive (V1); bool/int literal tables per language and string constants reach quoted templates only through an escaping function; the three constant-emission templates take value and type from the same constant (C6); no memoised function on the way tells apart values its memo key equates (True / 1, False / 0) (A7 part key).",
+    "precedence/associativity table, operand order and integer division of the four binary actions, grouping, literal decoding, escape table, token order (B4); the evaluated value is what Constant.value, Array.cap and option values receive (V1); bool/int literal tables per language and string constants reach quoted templates only through an escaping function; the three constant-emission templates take value and type from the same constant (C6); no memoised function on the way tells apart values its memo key equates (True / 1, False / 0) (A7 part key). a constant reference is resolved by a fresh lookup of its own identifier (B5); constants reach their block in every renderer mode (F11).",
     "numeric results are not computed; Python's int arithmetic is trusted.",
 ))
 
 reg(P(
     "C17", "-O and -F restrict what is generated without altering it",
     [("A9", ALL), ("B3", {"extensible-marker"}), ("A5", {"filter-needs-O", "parse-guard", "fatal"}), ("F4", ALL), ("A7", {"key"}), ("A10", ALL), ("F11", ALL)],
-    "traditional mode reaches every Parser including import children; the extensible marker is derivable only through the guarded production; language capability is checked at renderer construction; -F without -O hits fatal before render; the -F list only selects encoder/decoder function blocks with one shared predicate and never flows into a template; data-structure dispatchers ignore it (F4).",
+    "traditional mode reaches every Parser including import children; the extensible marker is derivable only through the guarded production; language capability is checked at renderer construction; -F without -O hits fatal before render; the -F list only selects encoder/decoder function blocks with one shared predicate and never flows into a template; data-structure dispatchers ignore it (F4). nothing on the compile path asks the file system what is already there, output files are truncated (A10); the -F filter is the only condition under which a definition gets no block (F11).",
     "textual identity of two compiler runs is not observed; it follows from F4's non-interference only as far as the template abstraction goes.",
 ))
 
 reg(P(
     "C18", "Compilation is deterministic",
     [("A10", ALL), ("A7", ALL), ("A6", ALL), ("A8", {"filepath", "pairing"}), ("C5", {"outfile"})],
-    "no nondeterminism source (set iteration, hash(), id(), cwd/env/time/random) on the output path outside the documented output-directory default; no module/class-level mutable state written after import; caches are per node and hold it strongly; lint does not write the AST; shared parser stacks are restored by try/finally and paired push/pop.",
+    "no nondeterminism source (set iteration, hash(), id(), cwd/env/time/random) on the output path outside the documented output-directory default; no module/class-level mutable state written after import; caches are per node and hold it strongly; lint does not write the AST; shared parser stacks are restored by try/finally and paired push/pop. the output file name is the extension-less base name of the schema file however the path is spelled (C5 part outfile).",
     "ply and CPython are trusted to be deterministic.",
 ))
 
 reg(P(
     "C20", "Lint is advisory and diagnostics point at the right line",
     [("A6", ALL), ("A11", ALL), ("C7", ALL), ("B2", ALL), ("A5", {"check-only", "fatal"}), ("A1", {"lint"}), ("A7", {"memo-results"}), ("A8", {"filepath"})],
-    "lint and renderers never write the AST (A6) and never change in place a list a memoised AST query handed out (A7 part memo-results); every rule is registered, targets a supported type and cites the checked definition (A11); each rule tests its kind's convention with the right polarity (C7); positions come from tracked symbols, node token/column/line refer to the name symbol, the newline rule is the only line counter and no other token can swallow a newline, the diagnostic template contains file and L<line>, and the column recorded for a symbol is its offset from the last newline searched in the window [0, lexpos) in front of it, 1-based on every line including the first (B2, the return value of _get_col folded over a grid of newline / token offsets); check-only exits non-zero iff an error or a warning (A5).",
+    "lint and renderers never write the AST (A6) and never change in place a list a memoised AST query handed out (A7 part memo-results); every rule is registered, targets a supported type and cites the checked definition (A11); each rule tests its kind's convention with the right polarity (C7); positions come from tracked symbols, node token/column/line refer to the name symbol, the newline rule is the only line counter and no other token can swallow a newline, the diagnostic template contains file and L<line>, and the column recorded for a symbol is its offset from the last newline searched in the window [0, lexpos) in front of it, 1-based on every line including the first (B2, the return value of _get_col folded over a grid of newline / token offsets); check-only exits non-zero iff an error or a warning (A5). an imported file is parsed by a parser and lexer constructed for it, so its line counter starts at 1 (B2 part fresh-lexer).",
     "the symbol indices of scope_start_col / scope_end_col and the indent measured on the first line of a file; behaviour of pascal_case/snake_case on arbitrary words.",
 ))
 
 reg(P(
     "C01", "Python encoder emits exactly the specified bit layout",
     [("D5", {"ast", "py", "common"}), ("A4", {"ast", "py"}), ("D1", {"py"}), ("E1", {"py"}), ("C3", {"py", "ast"}), ("D3", {"py"}), ("D6", {"py", "py-array-default"}), ("D7", {"py"}), ("C4", {"py"}), ("R1", {"py"}), ("B5", ALL), ("V1", {"reference"}), ("A7", {"key"})],
-    "size arithmetic equals the specification and BYTES_LENGTH / the encode allocation come from Message.nbytes() (D5); the processor list and dataclass fields are emitted in ascending field-number order (A4); the single-chunk encoder of bp.py equals the layout rule's normal form - stream byte i div 8, value byte 8*(j div 8), shift j mod 8 - i mod 8, mask 2^(i mod 8 + c) - 2^(i mod 8), OR store (D1) - and the chunk size satisfies 1 <= c <= 8, fits both bytes and never exceeds the field (E1); prefix: 16 bits, written before the children, carrying nbits/capacity (C3, D3); generated getters return (field >> rshift) for the field with that number and array depth (D6); alias/enum processors only delegate (D7); generator/runtime constructor arguments agree positionally (C4).",
+    "size arithmetic equals the specification and BYTES_LENGTH / the encode allocation come from Message.nbytes() (D5); the processor list and dataclass fields are emitted in ascending field-number order (A4); the single-chunk encoder of bp.py equals the layout rule's normal form - stream byte i div 8, value byte 8*(j div 8), shift j mod 8 - i mod 8, mask 2^(i mod 8 + c) - 2^(i mod 8), OR store (D1) - and the chunk size satisfies 1 <= c <= 8, fits both bytes and never exceeds the field (E1); prefix: 16 bits, written before the children, carrying nbits/capacity (C3, D3); generated getters return (field >> rshift) for the field with that number and array depth (D6); alias/enum processors only delegate (D7); generator/runtime constructor arguments agree positionally (C4). no default argument of the runtime or of a generated function is a mutable object (R1).",
     "that the composition of these yields the exact bytes for every schema and value (nothing is executed; no proof of the whole encoder).",
 ))
 
 reg(P(
     "C02", "Python decode(encode(v)) == v, and re-encoding reproduces the bytes",
     [("D1", {"py"}), ("E1", {"py"}), ("D6", {"py", "py-decode", "py-array-default"}), ("D4", {"py"}), ("D3", {"py"}), ("D7", {"py"}), ("C3", {"py"}), ("C4", {"py"}), ("R1", {"py"})],
-    "the decode chunk is the mirror of the encode chunk (D1 both directions against the same specification form); set-byte items OR a totally-converted chunk into the same reference the get-byte item reads, `=` only for bool, enum chunks go to the integer proxy (D6); sign extension from bit n-1 with mask -(2^n) for every width narrower than its storage, bp.intN thresholds 2^(N-1) / modulus 2^N (D4); decode half of the extensible processors including the skip target (D3); mask < 256 and progress (E1).",
+    "the decode chunk is the mirror of the encode chunk (D1 both directions against the same specification form); set-byte items OR a totally-converted chunk into the same reference the get-byte item reads, `=` only for bool, enum chunks go to the integer proxy (D6); sign extension from bit n-1 with mask -(2^n) for every width narrower than its storage, bp.intN thresholds 2^(N-1) / modulus 2^N (D4); decode half of the extensible processors including the skip target (D3); mask < 256 and progress (E1). no default argument of the runtime or of a generated function is a mutable object (R1).",
     "equality of values; exceptions inside dataclasses / IntEnum for member values.",
 ))
 
 reg(P(
     "C05", "Forward compatibility: an older schema decodes data from an extended one",
     [("D3", ALL), ("C3", ALL), ("EC3", ALL), ("C1", {"prefix-range"}), ("A9", ALL), ("B3", {"extensible-marker"}), ("CC4", {"delegation"}), ("C4", ALL)],
-    "in the six extensible processors (message and array x Python/Go/C): the start position is read before the prefix, the prefix is written on encode and read on decode under `extensible`, children run in order, the cursor moves only when decoding, every forward move passes the guard, and the skip target is start + sender-bits for messages and start + 16 + sender-capacity x bits-per-element for arrays (D3, EC3); what the sender writes (nbits / capacity, 16 bits, scratch field number 1) is what the receiver reads (C3); the compiler rejects every message larger than 65535 bits and every array capacity above 65535, the largest numbers the 16-bit prefix can carry (C1 prefix-range).",
+    "in the six extensible processors (message and array x Python/Go/C): the start position is read before the prefix, the prefix is written on encode and read on decode under `extensible`, children run in order, the cursor moves only when decoding, every forward move passes the guard, and the skip target is start + sender-bits for messages and start + 16 + sender-capacity x bits-per-element for arrays (D3, EC3); what the sender writes (nbits / capacity, 16 bits, scratch field number 1) is what the receiver reads (C3); the compiler rejects every message larger than 65535 bits and every array capacity above 65535, the largest numbers the 16-bit prefix can carry (C1 prefix-range). every generated C function hands its definition to the runtime on every path and its wrapper always builds the descriptor (CC4 part delegation); no template passes a constant where the runtime constructor takes a property of the definition (C4).",
     "decoded values; only the position arithmetic is decided.",
 ))
 
 reg(P(
     "C15", "Generated API names follow the documented scheme",
     [("C5", ALL), ("A7", {"key"}), ("F2", ALL), ("F11", ALL)],
-    "each effective entry of the three case_style_mapping() tables lies in the set the scheme allows for that (language, kind): identity on style-guide names, except the fixed transformations C message -> pascal, Python message -> keep, Go struct field -> pascal; style names resolve to the right converter functions; nested names are prefix + enclosing names outermost first + own name; Encode/Decode/Json/BYTES_LENGTH_/BYTES_LENGTH/encode/decode/Size/JSON-tag templates; output file name and extensions; the C name prefix flows only into the definition-name builder.",
+    "each effective entry of the three case_style_mapping() tables lies in the set the scheme allows for that (language, kind): identity on style-guide names, except the fixed transformations C message -> pascal, Python message -> keep, Go struct field -> pascal; style names resolve to the right converter functions; nested names are prefix + enclosing names outermost first + own name; Encode/Decode/Json/BYTES_LENGTH_/BYTES_LENGTH/encode/decode/Size/JSON-tag templates; output file name and extensions; the C name prefix flows only into the definition-name builder. nested scopes are descended with the same filter (F2) and every kind of definition reaches its block in every mode (F11).",
     "behaviour of pascal_case / snake_case / upper_case on arbitrary words (assumed: keep is the identity, pascal on PascalCase, snake on snake_case, upper and (snake, upper) on UPPER_SNAKE).",
     ["keep_case/pascal_case/snake_case/upper_case are the identity on names of their own style"],
 ))
@@ -132,28 +132,28 @@ reg(P(
 reg(P(
     "C07", "Encoding touches exactly its bytes, and each field exactly its bits",
     [("D5", ALL), ("E1", ALL), ("D1", ALL), ("EC1", ALL), ("EC2", ALL), ("D2", ALL), ("C2", ALL), ("F5", {"memset"}), ("EC4", ALL), ("A9", ALL), ("B3", {"extensible-marker"})],
-    "one source (Message.nbytes(), ceil form) for the size constant in C, Go and Python and for every encode allocation (D5); every chunk is at most the field's remaining bits and fits the byte (E1), every stored chunk is `(...) & mask` with the specification mask (D1, D2); in C unmasked word/byte paths never carry more than the remaining bits and word stores/loads stay inside ceil(n/8) bytes, partial stores are masked (EC1); the batch copy covers exactly nbits * cap bits of storage-sized integers (EC2).",
+    "one source (Message.nbytes(), ceil form) for the size constant in C, Go and Python and for every encode allocation (D5); every chunk is at most the field's remaining bits and fits the byte (E1), every stored chunk is `(...) & mask` with the specification mask (D1, D2); in C unmasked word/byte paths never carry more than the remaining bits and word stores/loads stay inside ceil(n/8) bytes, partial stores are masked (EC1); the batch copy covers exactly nbits * cap bits of storage-sized integers (EC2). on a big-endian build the staged copy moves exactly nbits between the stream at the cursor and the staging buffer at bit 0 (EC4); -O reaches imported files (A9) and refuses the extensible marker (B3).",
     "sanitizer-observable behaviour; out-of-range Python integers beyond the masking argument.",
 ))
 
 reg(P(
     "C10", "Every accepted schema yields code the target toolchains accept (narrow: necessary structural conditions)",
     [("F2", ALL), ("F1", ALL), ("A2", ALL), ("A1", {"render"}), ("A13", ALL), ("F6", ALL), ("F6b", ALL), ("F7", ALL), ("F8", ALL), ("C5", {"common", "owner", "qualifier", "binding", "outfile", "nesting"}), ("F9", ALL), ("F10", ALL), ("A7", {"key"}), ("F11", ALL), ("C6", ALL)],
-    "definitions are emitted children first in declaration order for the bound proto (F2); each block class pushes balanced brackets and #if/#endif on every path (F1); rendering raises no internal error: exhaustive dispatch, abstract coverage, render-context and push_string discipline (A2, A1 render part, A13); internal helper-name templates are uniquely decodable (F6); include/import statements name the file the compiler generates (F7).",
+    "definitions are emitted children first in declaration order for the bound proto (F2); each block class pushes balanced brackets and #if/#endif on every path (F1); rendering raises no internal error: exhaustive dispatch, abstract coverage, render-context and push_string discipline (A2, A1 render part, A13); internal helper-name templates are uniquely decodable (F6); include/import statements name the file the compiler generates (F7). every kind of definition reaches its block in every mode, the C header declares functions for exactly the kinds the source defines them for, and only -F makes a block conditional (F11); literals of constants go through the formatter of their own kind (C6).",
     "whether gcc, g++, CPython or Go accept the output (that needs the output); struct layout equality in C++; reserved words.",
 ))
 
 reg(P(
     "C12", "The wire format depends only on field numbers and resolved types",
     [("F3", ALL), ("A4", ALL), ("D5", {"ast"}), ("D7", ALL), ("EC3", ALL), ("V1", {"reference"}), ("D2", ALL), ("D6", {"py", "go"}), ("B4", ALL), ("R1", ALL), ("D3", ALL), ("A7", {"key"}), ("B5", ALL), ("F6", ALL), ("CA2", ALL)],
-    "layout-bearing computations (size arithmetic, planner, processor/descriptor constructors) read only number / cap / extensible / type attributes, never names, comments, positions or option values; comment / newline / semicolon actions build nothing (F3); declaration order is erased by sorting on the integer field number at every order-sensitive site (A4); Alias.nbits is the target's and alias processors only delegate in all three runtimes (D5, D7, EC3); the resolved definition object is what a field stores, wherever it was declared (V1); alias transparency of the generators: for every type shape reached through an alias the optimization-mode statements and the generated accessors are the ones of the aliased type, with the alias name only where the target language needs a conversion (D2 scenarios Alias->leaf incl. the unsigned working type, D6 shapes alias(...)); a literal and a constant expression of equal value are the same to the rest of the compiler because operator precedence and associativity are the usual ones (B4); the runtimes keep nothing between fields or calls that could make the bytes depend on the numbers themselves rather than their order: no module / package / file-scope state is written (R1) and every field is processed with a fresh indexer built from its own number (D3).",
+    "layout-bearing computations (size arithmetic, planner, processor/descriptor constructors) read only number / cap / extensible / type attributes, never names, comments, positions or option values; comment / newline / semicolon actions build nothing (F3); declaration order is erased by sorting on the integer field number at every order-sensitive site (A4); Alias.nbits is the target's and alias processors only delegate in all three runtimes (D5, D7, EC3); the resolved definition object is what a field stores, wherever it was declared (V1); alias transparency of the generators: for every type shape reached through an alias the optimization-mode statements and the generated accessors are the ones of the aliased type, with the alias name only where the target language needs a conversion (D2 scenarios Alias->leaf incl. the unsigned working type, D6 shapes alias(...)); a literal and a constant expression of equal value are the same to the rest of the compiler because operator precedence and associativity are the usual ones (B4); the runtimes keep nothing between fields or calls that could make the bytes depend on the numbers themselves rather than their order: no module / package / file-scope state is written (R1) and every field is processed with a fresh indexer built from its own number (D3). the C runtime's dispatch functions reach a handler for every type flag the generator can produce (CA2).",
     "byte equality of two compilations.",
 ))
 
 reg(P(
     "C14", "Every width x bit-offset x signedness combination is bit-exact in every runtime",
     [("E1", ALL), ("D1", ALL), ("EC1", ALL), ("EC2", ALL), ("C2", ALL), ("CC2", ALL), ("D4", ALL), ("CD4", ALL), ("G1", ALL), ("D2", ALL), ("R1", ALL), ("CC4", ALL), ("D6", {"py-array-default"}), ("A7", {"key"})],
-    "the obligations are parametric in (n, si, di), which is this property's space: chunk bounds for Python/Go/planner (E1) and the chunk plan (D1); the C copier's obligations on every path for all 64 (si, di) pairs and every n in the path's interval, both build variants (EC1); batch predicate (EC2); storage partitions (C2, CC2); sign extension sites incl. bp.intN thresholds and the C cases (D4, CD4); the storage size the C runtime's sign extension and array stride rely on is sizeof(the C type) in every generated descriptor (CC4); generated accessors and default values per type shape, incl. one fresh object per array element (D6).",
+    "the obligations are parametric in (n, si, di), which is this property's space: chunk bounds for Python/Go/planner (E1) and the chunk plan (D1); the C copier's obligations on every path for all 64 (si, di) pairs and every n in the path's interval, both build variants (EC1); batch predicate (EC2); storage partitions (C2, CC2); sign extension sites incl. bp.intN thresholds and the C cases (D4, CD4); the storage size the C runtime's sign extension and array stride rely on is sizeof(the C type) in every generated descriptor (CC4); generated accessors and default values per type shape, incl. one fresh object per array element (D6). no default argument of the runtime or of a generated function is a mutable object (R1).",
     "bit-exactness of the C partial-byte expressions beyond their mask form.",
 ))
 
